@@ -228,6 +228,40 @@ func suiteV04(c *vctx) {
 					c.emit("law.C04.basic_auth_equals_store "+id, vtf(got == refOk))
 				}
 			}
+			// … and with any request method and unrelated headers (a preflight, a proxy's additions, no or
+			// another Authorization scheme): the status is the verdict, nothing but the credentials decides it
+			if r.Intn(2) == 0 {
+				method := []string{"GET", "HEAD", "POST", "PUT", "OPTIONS", "OPTIONS", "DELETE", "PATCH", "PROPFIND"}[r.Intn(9)]
+				req := httptest.NewRequest(method, "/basic-auth", nil)
+				hs := ""
+				for _, h := range [][2]string{{"Origin", "https://admin.example.org"}, {"Access-Control-Request-Method", "GET"}, {"Access-Control-Request-Headers", "authorization"},
+					{"X-Forwarded-For", "127.0.0.1"}, {"X-Forwarded-User", "root"}, {"Content-Type", "application/json"}, {"Cookie", "session=x"}, {"X-Requested-With", "XMLHttpRequest"}} {
+					if r.Intn(3) == 0 {
+						req.Header.Set(h[0], h[1])
+						hs += h[0] + ","
+					}
+				}
+				if method == "OPTIONS" && r.Bool() { // the complete shape of a CORS preflight
+					req.Header.Set("Origin", "https://admin.example.org")
+					req.Header.Set("Access-Control-Request-Method", []string{"GET", "POST"}[r.Intn(2)])
+					hs += "preflight,"
+				}
+				creds := r.Intn(8)
+				expect := false
+				switch {
+				case creds == 0: // no credentials at all
+				case creds == 1:
+					req.Header.Set("Authorization", "Bearer "+p)
+				default:
+					req.SetBasicAuth(u, p)
+					expect = refOk
+				}
+				rec := httptest.NewRecorder()
+				a.mux.ServeHTTP(rec, req)
+				if !strings.Contains(u, ":") || creds < 2 {
+					c.emit(fmt.Sprintf("law.C04.basic_auth_equals_store method=%s headers=%s creds=%d %s", method, hs, creds, id), vtf((rec.Code >= 200 && rec.Code < 300) == expect))
+				}
+			}
 			// HTTP API authenticate (JSON transport: what the server decodes is what is judged)
 			{
 				body, _ := json.Marshal(map[string]string{"username": u, "password": p})
